@@ -95,3 +95,48 @@ Proof.
   - apply wire_legal. apply wire_nil.
   - inversion H; subst. apply legal_data_app; auto.
 Qed.
+
+Lemma hd_not_lf_weaken a rest : hd_not_lf (a ++ rest) -> hd_not_lf (a ++ []).
+Proof. destruct a; cbn; auto. Qed.
+
+Lemma items_ok_nil : forall its rest, items_ok its rest -> items_ok its [].
+Proof.
+  induction its as [|it r IH]; intros rest H; [exact I|]. destruct H as (A & B & C).
+  split; [exact A|]. split; [|exact (IH rest C)]. intros E. apply (hd_not_lf_weaken _ rest). exact (B E).
+Qed.
+
+Lemma items_ok_drop : forall a b' rest, items_ok (a ++ b') rest -> items_ok b' rest.
+Proof. induction a as [|x a IH]; intros b' rest H; [exact H|]. destruct H as (_ & _ & C). exact (IH b' rest C). Qed.
+
+(** [o] is a legal rendering of the item: legal lines that unfold to the dot-stuffed line *)
+Definition rendered (ext8 : bool) (it : item) (o : bytes) : Prop :=
+  legal_data ext8 o /\ unfolds_to o (line_out it) = true.
+
+Lemma rendered_concat ext8 : forall its outs, Forall2 (rendered ext8) its outs ->
+  legal_data ext8 (concat outs) /\ unfolds_to (concat outs) (concat (map line_out its)) = true.
+Proof.
+  induction 1 as [|it o its outs (H1 & H2) _ (IH1 & IH2)]; cbn [concat map].
+  - split; [apply wire_legal; apply wire_nil|reflexivity].
+  - split; [apply legal_data_app; assumption|apply unfolds_app2; assumption].
+Qed.
+
+Lemma rendered_plain ext8 it : item_ok it -> length (fst it) <= MAXLINE -> (ext8 = false -> seven_bit (fst it)) ->
+  rendered ext8 it (line_out it).
+Proof. intros A B C. split; [apply line_out_legal; assumption|apply unfolds_refl]. Qed.
+
+Lemma Forall2_app_r {A B} (R : A -> B -> Prop) a1 b1 a2 b2 : Forall2 R a1 b1 -> Forall2 R a2 b2 -> Forall2 R (a1 ++ a2) (b1 ++ b2).
+Proof. intros H1 H2. induction H1; cbn [app]; [exact H2|constructor; assumption]. Qed.
+
+Lemma Forall2_map_r {A B} (R : A -> B -> Prop) (f : A -> B) l : Forall (fun x => R x (f x)) l -> Forall2 R l (map f l).
+Proof. induction 1; cbn [map]; constructor; assumption. Qed.
+
+(** wire data whose last octet is LF ends at the beginning of a line *)
+Lemma wire_last_lf ext8 d t : wire ext8 d t -> last_is_lf d = true -> t = [].
+Proof.
+  intros (ls & E & _ & Hc) Hl. destruct t as [|x t']; [reflexivity|]. exfalso.
+  rewrite E in Hl. rewrite last_is_lf_app in Hl by discriminate.
+  assert (Hin : forall c, In c (x :: t') -> c <> LF) by (intros c Hc'; unfold line_clean in Hc; rewrite Forall_forall in Hc; destruct (Hc c Hc'); assumption).
+  unfold last_is_lf in Hl. destruct (rev (x :: t')) as [|y r] eqn:Er.
+  - discriminate.
+  - apply N.eqb_eq in Hl. subst y. apply (Hin LF); [|reflexivity]. apply in_rev. rewrite Er. left. reflexivity.
+Qed.
